@@ -56,7 +56,7 @@ ASSUMPTIONS = [
 ]
 
 
-EXPECTED_PROBES = ['non_contiguous_caller_arrays', 'fit_with_identifiers_unlike_positions', 'best_is_last_iteration_and_it_swapped', 'prune_on_an_already_used_object', 'accuracy_zero_in_every_iteration', 'best_iteration_is_not_last', 'learn_swapped_rows', 'more_fits_than_n_iterations', 'nan_weight_no_relevance_verdict', 'prototype_index_drawn', 'prune_discarded_rows', 'prune_dropped_a_relevant_row', 'tie_for_best_accuracy', 'unique_winner_is_first_of_conquest_order', 'winner_is_first_of_conquest_order']
+EXPECTED_PROBES = ['relevance_with_precomputed_distances', 'non_contiguous_caller_arrays', 'fit_with_identifiers_unlike_positions', 'best_is_last_iteration_and_it_swapped', 'prune_on_an_already_used_object', 'accuracy_zero_in_every_iteration', 'best_iteration_is_not_last', 'learn_swapped_rows', 'more_fits_than_n_iterations', 'nan_weight_no_relevance_verdict', 'prototype_index_drawn', 'prune_discarded_rows', 'prune_dropped_a_relevant_row', 'tie_for_best_accuracy', 'unique_winner_is_first_of_conquest_order', 'winner_is_first_of_conquest_order']
 
 
 def arms(tier):
@@ -122,11 +122,25 @@ def gen_case(rng, arm, tier, k=0):
     case["layout_v"] = rng.choice(("c", "c", "f", "cols", "strided"))
     if arm == "relevance":
         case["passes"] = rng.randint(1, 3)
-        if rng.random() < 0.4:
+        r_ = rng.random()
+        if r_ < 0.3:
             # identifiers that differ from positions (they only name the samples)
             ids = list(range(nt + 3))
             rng.shuffle(ids)
             case["ids"] = ids[:nt]
+        elif r_ < 0.6:
+            # pre-computed distances that do not come from the features: samples are identified
+            # by their index into the matrix (training and validation rows interleaved)
+            ids = list(range(nt + nv))
+            rng.shuffle(ids)
+            case["ids"] = ids[:nt]
+            case["val_ids"] = ids[nt:]
+            case["pre_seed"] = rng.getrandbits(30)
+            if rng.random() < 0.5:
+                # coarse features: several validation rows share one descriptor
+                for i in range(1, nv):
+                    if rng.random() < 0.5:
+                        case["Xv"][i] = list(case["Xv"][rng.randrange(i)])
     if arm == "seq":
         # several calls on ONE model object, sharing the caller's arrays
         case["op"] = "seq"
@@ -275,7 +289,7 @@ class Observer:
             raise OutOfDomain()
         self.log.add("fit", self.fits, dig(tuple(sorted(self.multiset(X, Y).items()))))
 
-    def after_predict(self, model, X, preds):
+    def after_predict(self, model, X, preds, I=None):
         self.predicts_since_fit += 1
         self.out.steps += 1
         sg = model.subgraph
@@ -299,9 +313,9 @@ class Observer:
                 if pr != NIL and pr not in R:
                     raise Stop(violation("relevance-not-closed", "training sample %d is flagged relevant but its predecessor %d is not" % (i, pr)))
         elif self.predicts_since_fit == 1 or self.op == "relevance":
-            self.check_relevance(model, X, R, cumulative=self.predicts_since_fit > 1)
+            self.check_relevance(model, X, R, cumulative=self.predicts_since_fit > 1, I=I)
 
-    def check_relevance(self, model, X, R, cumulative):
+    def check_relevance(self, model, X, R, cumulative, I=None):
         sg = model.subgraph
         nodes = sg.nodes
         n = len(nodes)
@@ -312,15 +326,21 @@ class Observer:
             p = nodes[i].pred
             if p != NIL and p not in R:
                 raise Stop(violation("relevance-not-closed", "training sample %d is flagged relevant but its predecessor %d is not" % (i, p)))
+        pre = model.pre_distances if model.pre_computed_distance else None
+        ids_now = [int(i) for i in I] if I is not None else [None] * len(X)
         if cumulative:
             self.all_X = np.vstack([self.all_X, np.asarray(X)])
+            self.all_I = self.all_I + ids_now
         else:
             self.all_X = np.asarray(X)
+            self.all_I = ids_now
         winners = []
-        for x in self.all_X:
+        for x, xi in zip(self.all_X, self.all_I):
             vals = []
             for t in range(n):
-                w = fn(nodes[t].features, x)
+                # same arc weight as predict: matrix entry [training identifier][query identifier]
+                # in pre-computed mode, the metric on (training features, query features) otherwise
+                w = pre[nodes[t].idx][xi] if pre is not None else fn(nodes[t].features, x)
                 vals.append(np.maximum(nodes[t].cost, w))
             if any(v != v for v in vals):
                 bump(self.out.probes, "nan_weight_no_relevance_verdict")
@@ -395,7 +415,7 @@ def make_observed(Sup):
 
         def predict(self, X_val, I_val=None):
             preds = Sup.predict(self, X_val, I_val)
-            _OBS.after_predict(self, X_val, preds)
+            _OBS.after_predict(self, X_val, preds, I_val)
             return preds
 
     return ObservedOPF
@@ -519,6 +539,19 @@ def run_case(case):
                 lib_call("predict", opf.predict, Xv.copy())
                 state_bits.append((step,))
             else:
+                pre_mode = case.get("pre_seed") is not None and len(case.get("ids", [])) == len(Xt) and len(case.get("val_ids", [])) == len(Xv)
+                if pre_mode:
+                    import random as _random
+
+                    r_ = _random.Random(case["pre_seed"])
+                    N_ = len(Xt) + len(Xv)
+                    Mx = np.zeros((N_, N_))
+                    for i in range(N_):
+                        for j in range(i + 1, N_):
+                            Mx[i, j] = Mx[j, i] = float(r_.randint(1, 5)) if r_.random() < 0.5 else round(r_.uniform(0.1, 9.0), 2)
+                    opf.pre_computed_distance = True
+                    opf.pre_distances = Mx
+                    bump(out.probes, "relevance_with_precomputed_distances")
                 if case.get("ids") and len(case["ids"]) == len(Xt):
                     lib_call("fit", opf.fit, Xt, Yt, iarr(case["ids"]))
                     bump(out.probes, "fit_with_identifiers_unlike_positions")
@@ -526,8 +559,12 @@ def run_case(case):
                     lib_call("fit", opf.fit, Xt, Yt)
                 for p in range(case.get("passes", 1)):
                     # later passes predict other rows: flags accumulate over passes on one model
-                    Xq = Xv if p == 0 else (Xt if p == 1 else Xv[::-1])
-                    lib_call("predict", opf.predict, Xq.copy())
+                    if pre_mode:
+                        order = list(range(len(Xv))) if p != 2 else list(range(len(Xv)))[::-1]
+                        lib_call("predict", opf.predict, Xv[order].copy(), iarr([case["val_ids"][o] for o in order]))
+                    else:
+                        Xq = Xv if p == 0 else (Xt if p == 1 else Xv[::-1])
+                        lib_call("predict", opf.predict, Xq.copy())
                 nontrivial = nontrivial or obs.rel_nontrivial
                 state_bits.append(("rel", len(Xt), len([n for n in opf.subgraph.nodes if n.relevant != B.constants.IRRELEVANT])))
         out.nontrivial = nontrivial
